@@ -157,6 +157,13 @@ func main() {
 		}
 		return
 	}
+	if *probeSpec == "mapranges" {
+		w, _ := LoadWorld(*dir, nil)
+		for _, r := range w.mapRanges() {
+			fmt.Println(w.Pos(r.Pos()), w.FuncKey(r.Parent()))
+		}
+		return
+	}
 	if *probeSpec != "" {
 		probe(*dir, *probeSpec)
 		return
